@@ -475,7 +475,8 @@ class Session:
             if isinstance(b, (int, float)) and b > 0:
                 await asyncio.sleep(b)
 
-        c.set_status_callback(on_status)
+        if self.status_mode != "none":
+            c.set_status_callback(on_status)        # ("none": the application does not register a status callback at all)
         c.set_receive_callback(on_receive)
         return c
 
